@@ -136,7 +136,7 @@ def _replay(beh):
 def run(tier, seed):
     res = core.Result(PROP, tier, seed)
     r, behs = e2.generate(tier, seed, "c05")
-    behs = [b for b in behs if b["desc"]["cls"] != "Tri"]
+    behs = [b for b in behs if b["desc"]["cls"] not in ("Tri", "TriRepeat")]
     res.add_tlc("MC_E2", r)
     b0 = copy.deepcopy(next(b for b in behs if not b.get("big")))
     b0["dets"] = [x * 3 for x in b0["dets"]]
